@@ -205,24 +205,26 @@ Section Ring.
   Definition absorb (ans : kmap pkres) (kf : kmap pkres) (kr : kmap Z) : kmap pkres * kmap Z :=
     fold_left absorb_step ans (kf, kr).
 
-  (* the loop over k.KeyFetchers *)
+  (* one iteration of the loop over k.KeyFetchers: an error or an empty answer changes nothing *)
+  Definition step_fetch (f : fetcher) (kf : kmap pkres) (kr : kmap Z) : kmap pkres * kmap Z :=
+    match f kr with
+    | None => (kf, kr)
+    | Some [] => (kf, kr)
+    | Some ans => absorb ans kf kr
+    end.
+
+  (* the loop over k.KeyFetchers; stops as soon as the request map is empty *)
   Fixpoint fetch_loop (idx : nat) (fs : list fetcher) (kf : kmap pkres) (kr : kmap Z)
-    : kmap pkres * kmap Z * list call :=
+    : (kmap pkres * kmap Z) * list call :=
     match fs with
-    | [] => (kf, kr, [])
+    | [] => ((kf, kr), [])
     | f :: fs' =>
         match kr with
-        | [] => (kf, kr, [])
+        | [] => ((kf, kr), [])
         | _ :: _ =>
-            let a := f kr in
-            let c := {| c_idx := idx; c_asked := kr; c_answer := a |} in
-            let '(kf', kr') := match a with
-                               | None => (kf, kr)
-                               | Some [] => (kf, kr)
-                               | Some ans => absorb ans kf kr
-                               end in
-            let '(kf2, kr2, cs) := fetch_loop (S idx) fs' kf' kr' in
-            (kf2, kr2, c :: cs)
+            let st := step_fetch f kf kr in
+            let rest := fetch_loop (S idx) fs' (fst st) (snd st) in
+            (fst rest, {| c_idx := idx; c_asked := kr; c_answer := f kr |} :: snd rest)
         end
     end.
 
@@ -248,14 +250,17 @@ Section Ring.
         | None => {| o_results := None; o_dbcall := Some kr0; o_calls := []; o_keys := [];
                      o_stored := None |}
         | Some fromdb =>
-            let '(kf1, kr1) := absorb_db (as_timestamp now) fromdb kr0 in
+            let st1 := absorb_db (as_timestamp now) fromdb kr0 in
+            let kf1 := fst st1 in
             let first_pass := Nat.eqb (length kf1) (length reqs) in
             let slots1 := if first_pass then check_using_keys now kf1 slots0 else slots0 in
             if first_pass && all_ok slots1 then
               {| o_results := Some (map sl_res slots1); o_dbcall := Some kr0; o_calls := [];
                  o_keys := kf1; o_stored := None |}
             else
-              let '(kf2, kr2, cs) := fetch_loop 0 fetchers kf1 kr1 in
+              let fl := fetch_loop 0 fetchers kf1 (snd st1) in
+              let kf2 := fst (fst fl) in
+              let cs := snd fl in
               let slots2 := check_using_keys now kf2 slots1 in
               {| o_results := if db_store kf2 then Some (map sl_res slots2) else None;
                  o_dbcall := Some kr0; o_calls := cs; o_keys := kf2; o_stored := Some kf2 |}
